@@ -161,15 +161,18 @@ def schema_bisim(a, b):
                 alt2, _ = deref(alt, defs) if isinstance(alt, dict) else (alt, ())
                 for v in view(alt2, defs, depth + 1):
                     out.append(v if v == NULL or not rest or not isinstance(v, dict) else {**v, **rest})
-            return out
+            if any(v == {} or v is True or v == rest for v in out):
+                return [rest]  # an alternative accepting everything (Any) absorbs the union
+            return [v for v in out if v != NULL] + [v for v in out if v == NULL][:1]  # 'null' last, once
         if isinstance(x.get("type"), list) and len(x["type"]) > 1:
             rest = {k: v for k, v in x.items() if k != "type"}
-            return [dict(NULL) if t == "null" else {**rest, "type": t} for t in x["type"]]
+            out = [dict(NULL) if t == "null" else {**rest, "type": t} for t in x["type"]]
+            return [v for v in out if v != NULL] + [v for v in out if v == NULL][:1]
         return [x]
 
     def trivial(v, defs):
         v2, _ = deref(v, defs) if isinstance(v, dict) else (v, ())
-        return v2 == {} or v2 is True
+        return v2 == {} or v2 is True or (isinstance(v2, dict) and view(v2, defs) == [{}])
 
     OPEN = ("additionalProperties", "items", "unevaluatedProperties")
     assumed = set()
